@@ -2766,7 +2766,7 @@ def _witness(symbols, facts, bad, **kw):
     symbols = list(symbols)
     if _related(symbols, facts):
         return None
-    return M.find_witness(symbols, facts, bad, **kw)
+    return M.find_witness(symbols, facts, bad, reject=_computed, **kw)
 
 
 def _related(syms, facts=()):
@@ -2795,6 +2795,28 @@ def _related(syms, facts=()):
             if any(M.mentions(x, base) for x in op[1:] if isinstance(x, (tuple, Lin, S))):
                 return True
     return False
+
+
+def _computed(at):
+    """an atom that is not free to choose: it is (or is taken from) the result of something this engine does not evaluate - a call it does not
+    know, an element of a range or of a generated sequence, a conditional value.  Lengths / dimensions are judged by `_derived` / `_related`."""
+    if isinstance(at, tuple) and at[:1] in (("len",), ("dim",), ("flen",)):
+        return False
+
+    def bad(v, top=True):
+        if isinstance(v, Lin):
+            return any(bad(a, False) for a in v.t)
+        if isinstance(v, S):
+            return False
+        if not isinstance(v, tuple) or not v:
+            return False
+        h = v[0]
+        if h in ("op", "range", "comp", "built", "ite", "dictcomp", "func", "lambda", "partial", "closure", "obj", "class", "star"):
+            return True
+        if h in ("len", "dim", "flen", "sym", "k", "fd", "min", "max", "mul"):
+            return any(bad(x, False) for x in v[1:] if isinstance(x, (tuple, Lin))) if h in ("fd", "min", "max", "mul") else False
+        return any(bad(x, False) for x in v[1:] if isinstance(x, (tuple, Lin)))
+    return bad(at)
 
 
 def _derived(at):
